@@ -73,4 +73,36 @@ theorem C08_shortest (ps : List Str) (h : ps ≠ []) :
       | inl h => subst h; exact h2
       | inr h => exact h3 q h
 
+/-- the values found through the paths are exactly the values ValuesForKey returns -/
+theorem C08_paths_values (m : Val) (key : Str) (hwf : m.wf = true) (hs : KeySpec.pathSafe m = true)
+    (hn : Denote.noListInList m = true) (hk : KeySpec.keySafe key = true) :
+    List.Perm ((pathsForKey m key).flatMap fun p => oldValues none m p) (hasKey key [] m) :=
+  paths_values_perm m key hwf hs hn hk
+
+/-! ### the hypotheses are satisfiable on a non-trivial Map -/
+
+/-- `{"a": [ {"k": 1}, {"k": 2, "b": "x"} ], "k": "top"}` -/
+def sample : Val :=
+  .map [(['a'], .list [.map [(['k'], .num ['1'])],
+                       .map [(['k'], .num ['2']), (['b'], .str ['x'])]]),
+        (['k'], .str ['t', 'o', 'p'])]
+
+example : sample.wf = true ∧ KeySpec.pathSafe sample = true ∧ KeySpec.noStarKey sample = true
+    ∧ Denote.noListInList sample = true ∧ KeySpec.keySafe ['k'] = true := by decide
+
+example : hasKey ['k'] [] sample = [.str ['t', 'o', 'p'], .num ['1'], .num ['2']] := by decide
+
+example : pathsForKey sample ['k'] = [['k'], ['a', '.', 'k']] := by decide
+
+/-- the theorems instantiate on it (`walk` is well-founded, so this one is not by `decide`) -/
+example : List.Perm ((pathsForKey sample ['k']).flatMap fun p => oldValues none sample p)
+    [.str ['t', 'o', 'p'], .num ['1'], .num ['2']] :=
+  C08_paths_values sample ['k'] (by decide) (by decide) (by decide) (by decide)
+
+example : List.Perm (hasKey ['*'] [] sample) (KeySpec.valuesForKey ['*'] [] sample) :=
+  C08_values_spec ['*'] [] sample (by decide) (fun _ => by decide)
+
+example : ∀ p, p ∈ pathsForKey sample ['k'] ↔ p ∈ KeySpec.pathsForKey sample ['k'] :=
+  (C08_paths_spec sample ['k'] (by decide)).1
+
 end Mxj.C08
